@@ -91,6 +91,82 @@ def mk_epochs(ts, ea):
                      start=mk_arg(ts, ea.get("start")), duration=mk_arg(ts, ea.get("duration")), time_unit=ea.get("unit"))
 
 
+def mk_key(key):
+    k = key["kind"]
+    if k == "int":
+        return np.int64(key["k"]) if key.get("np") else int(key["k"])
+    if k == "slice":
+        return slice(key["lo"], key["hi"])
+    if k == "list":
+        return list(key["l"])
+    return np.array(key["m"], dtype=bool)
+
+
+def key_coq(key):
+    k = key["kind"]
+    if k == "int":
+        return "(EInt %s)" % zlit(key["k"])
+    if k == "slice":
+        return "(ESlice %s %s)" % (core.olit(key["lo"], zlit), core.olit(key["hi"], zlit))
+    if k == "list":
+        return "(EList %s)" % zlist(key["l"])
+    return "(EMask %s)" % llit([blit(b) for b in key["m"]])
+
+
+def mk_epochs_idx(ts, ea, key, sub=False, it=False):
+    """Epochs(...)[key], optionally through a subclass / through iteration"""
+    if sub:
+        class MyEpochs(ts.Epochs):
+            pass
+        ea = dict(ea)
+        e = MyEpochs(t0=mk_arg(ts, ea.get("t0")), stop=mk_arg(ts, ea.get("stop")), offset=mk_arg(ts, ea.get("offset")),
+                     start=mk_arg(ts, ea.get("start")), duration=mk_arg(ts, ea.get("duration")), time_unit=ea.get("unit"))
+    else:
+        e = mk_epochs(ts, ea)
+    if it and key["kind"] == "int" and e.data.ndim == 1 and 0 <= key["k"] < len(e):
+        r = [x for x in e][key["k"]]
+    else:
+        r = e[mk_key(key)]
+    if type(r) is not type(e):
+        raise RuntimeError("indexing changed the class from %s to %s" % (type(e).__name__, type(r).__name__))
+    return r
+
+
+def obs_epochs(e):
+    st, sp = np.asarray(e.data["start"]), np.asarray(e.data["stop"])
+    o = {"t": "epochs", "start": [int(x) for x in st.ravel()], "stop": [int(x) for x in sp.ravel()],
+         "sc": e.data.ndim == 0, "off": {"p": [int(e.offset)], "u": e.offset.time_unit, "sc": e.offset.ndim == 0},
+         "u": e.time_unit}
+    if len(o["start"]):
+        o["dur"] = [int(x) for x in np.asarray(e.duration).ravel()]
+        o["su"] = e.start.time_unit
+    return o
+
+
+def index_spec(e, key):
+    """Python indexing of the (start, stop) pairs of the epochs description e; 'ierr' = IndexError"""
+    if e["sc"]:
+        return "ierr"
+    st, sp = e["start"], e["stop"]
+    n = len(st)
+    k = key["kind"]
+    if k == "int":
+        if not -n <= key["k"] < n:
+            return "ierr"
+        i = key["k"] % n
+        return dict(e, start=[st[i]], stop=[sp[i]], sc=True)
+    if k == "slice":
+        sl = slice(key["lo"], key["hi"])
+        return dict(e, start=st[sl], stop=sp[sl])
+    if k == "list":
+        if not all(-n <= i < n for i in key["l"]):
+            return "ierr"
+        return dict(e, start=[st[i] for i in key["l"]], stop=[sp[i] for i in key["l"]])
+    if len(key["m"]) != n:
+        return "ierr"
+    return dict(e, start=[x for x, b in zip(st, key["m"]) if b], stop=[x for x, b in zip(sp, key["m"]) if b])
+
+
 def rne(q):
     """round half to even of a Fraction (np.round)"""
     fl = q.numerator // q.denominator
@@ -333,7 +409,7 @@ def run_action(a):
             if k == "uslice":
                 return obs_slice(u.slice_during(e))
             return obs_times(u[e] if a.get("via") == "getitem" else u.during(e))
-        if k in ("stime", "sat", "sint", "sduring"):
+        if k in ("stime", "sat", "sint", "sduring", "sduring_idx"):
             s = mk_series(ts, a["series"])
             if k == "stime":
                 return {"t": "axis", "axis": axis_state(s.time)}
@@ -352,7 +428,7 @@ def run_action(a):
                 if r.shape != tuple(a["series"]["shape"][:-1]):
                     return {"t": "other", "what": "selected data of shape %s" % (r.shape,)}
                 return {"t": "col", "c": [int(x) for x in r.ravel()]}
-            e = mk_epochs(ts, a["e"])
+            e = mk_epochs_idx(ts, a["e"], a["key"], a.get("sub"), a.get("it")) if k == "sduring_idx" else mk_epochs(ts, a["e"])
             r = s[e] if a.get("via") == "getitem" else s.during(e)
             lead = tuple(a["series"]["shape"][:-1])
             d = np.asarray(r.data)
@@ -363,7 +439,7 @@ def run_action(a):
                     return {"t": "other", "what": "during data of shape %s" % (d.shape,)}
                 out["one"] = columns(d)
             else:
-                if d.shape[1:-1] != lead or d.shape[0] != len(e):
+                if d.shape[1:-1] != lead or d.shape[0] != len(e.data):
                     return {"t": "other", "what": "during data of shape %s" % (d.shape,)}
                 out["rows"] = [columns(d[i]) for i in range(d.shape[0])]
             return out
@@ -386,11 +462,9 @@ def run_action(a):
                 return {"t": "other", "what": "event data keys/lengths %s for %d times" % (shapes, n)}
             return {"t": "events", "p": [int(x) for x in tm], "u": r.time_unit, "d": ev_records(r.data, n), "shapes": shapes}
         if k == "epochs":
-            e = mk_epochs(ts, a["e"])
-            st, sp = np.asarray(e.start), np.asarray(e.stop)
-            return {"t": "epochs", "start": [int(x) for x in st.ravel()], "stop": [int(x) for x in sp.ravel()],
-                    "sc": e.data.ndim == 0, "off": {"p": [int(e.offset)], "u": e.offset.time_unit, "sc": e.offset.ndim == 0},
-                    "u": e.time_unit, "su": e.start.time_unit}
+            return obs_epochs(mk_epochs(ts, a["e"]))
+        if k == "eidx":
+            return obs_epochs(mk_epochs_idx(ts, a["e"], a["key"], a.get("sub"), a.get("it")))
         raise KeyError(k)
     except Exception as ex:  # noqa
         return {"t": "err", "e": XERR.get(type(ex).__name__, "XOther"), "cls": type(ex).__name__, "msg": str(ex)[:120]}
@@ -467,6 +541,10 @@ def action_coq(a):
         return "(AEGet %s %s)" % (events_coq(a["events"]), kc)
     if k == "epochs":
         return "(AEpochs %s)" % eargs_coq(a["e"])
+    if k == "eidx":
+        return "(AEpochsGet %s %s)" % (eargs_coq(a["e"]), key_coq(a["key"]))
+    if k == "sduring_idx":
+        return "(ASDuringGet %s %s %s)" % (series_coq(a["series"]), eargs_coq(a["e"]), key_coq(a["key"]))
     raise KeyError(k)
 
 
@@ -685,7 +763,7 @@ def oracle(a, o):
         if o["t"] != "axis" or o["axis"] != want:
             return fail("C03/TimeSeries.time", "the series' time axis is not t0 + k*interval for its n samples", o, want)
         return None
-    if k in ("sat", "sint", "sduring"):
+    if k in ("sat", "sint", "sduring", "sduring_idx"):
         s = a["series"]
         n = s["shape"][-1]
         data = np.array(s["data"], dtype=np.int64).reshape(s["shape"])
@@ -710,6 +788,11 @@ def oracle(a, o):
         key = "C03/TimeSeries.during"
         if e == "err":
             return None if o["t"] == "err" else fail("C03/Epochs/invalid", "invalid Epochs arguments accepted", o, "exception")
+        if k == "sduring_idx":
+            key = "C03/TimeSeries.during/indexed-epochs"
+            e = index_spec(e, a["key"])
+            if e == "ierr" or not e["start"]:
+                return None if o["t"] == "err" else fail(key, "an impossible / empty selection of epochs was accepted", o, "exception")
         lo, hi = p[0], p[0] + n * s["dt"]
         inside = all(lo <= x < hi for x in e["start"] + e["stop"])
         sel = [[i for i, x in enumerate(p) if st <= x < sp] for st, sp in zip(e["start"], e["stop"])]
@@ -775,6 +858,20 @@ def oracle(a, o):
             return None if o["t"] == "err" else fail("C03/Epochs/invalid", "invalid Epochs arguments accepted", o, "exception")
         if o["t"] != "epochs" or (o["start"], o["stop"], o["sc"], o["off"]["p"][0], o["u"]) != (e["start"], e["stop"], e["sc"], e["off"], e["u"]):
             return fail("C03/Epochs/construction", "start / stop / offset differ from start = t0 - offset, stop = start + duration", o, e)
+        return None
+    if k == "eidx":
+        e = spec_epochs(a["e"])
+        if e == "err":
+            return None if o["t"] == "err" else fail("C03/Epochs/invalid", "invalid Epochs arguments accepted", o, "exception")
+        e = index_spec(e, a["key"])
+        kk = "C03/Epochs.__getitem__/%s" % a["key"]["kind"]
+        if e == "ierr":
+            return None if o["t"] == "err" else fail(kk, "an index outside the epochs was accepted", o, "IndexError")
+        if o["t"] != "epochs" or (o["start"], o["stop"], o["sc"], o["off"]["p"][0], o["u"]) != (e["start"], e["stop"], e["sc"], e["off"], e["u"]):
+            return fail(kk, "the selected epochs do not keep the start / stop of the selected positions and the offset / unit of the object",
+                        o, e)
+        if "dur" in o and o["dur"] != [b - a_ for a_, b in zip(e["start"], e["stop"])]:
+            return fail(kk + "/duration", "duration of the selected epochs is not stop - start", o, [b - a_ for a_, b in zip(e["start"], e["stop"])])
         return None
     return None
 
@@ -1121,6 +1218,11 @@ def gen_action0(rng, ts, nbig=None):
                       lo=p[0] if inside else None, hi=p[0] + n * s["dt"] if inside else None)
         if rng.random() < 0.03:
             e = gen_bad_eargs(rng, s["u"])
+        if rng.random() < 0.3:       # the epochs are indexed / sliced / iterated first; built with an explicit offset
+            e = gen_offset_eargs(rng, s["u"], span, s["dt"], array=rng.random() < 0.85, uni=(p[0], s["dt"], n * s["dt"]),
+                                 lo=p[0] if inside else None, hi=p[0] + n * s["dt"] if inside else None)
+            return {"act": "sduring_idx", "series": s, "e": e, "key": gen_ekey(rng, e), "via": via,
+                    "sub": rng.random() < 0.2, "it": rng.random() < 0.2}
         return {"act": "sduring", "series": s, "e": e, "via": via}
     if r < 0.95:
         ev, g = gen_events(rng)
@@ -1137,8 +1239,34 @@ def gen_action0(rng, ts, nbig=None):
         return {"act": "eget", "events": ev, "key": key}
     u = gen_unit(rng)
     s, g = gen_times(rng, u)
+    if rng.random() < 0.5:
+        e = gen_offset_eargs(rng, u, s["p"], g, array=rng.random() < 0.85)
+        return {"act": "eidx", "e": e, "key": gen_ekey(rng, e), "sub": rng.random() < 0.2, "it": rng.random() < 0.2}
     e = gen_bad_eargs(rng, u) if rng.random() < 0.4 else gen_eargs(rng, u, s["p"], g, array=rng.random() < 0.5)
     return {"act": "epochs", "e": e}
+
+
+def gen_offset_eargs(rng, u, p, g, array=True, **kw):
+    """Epochs arguments with an explicit (almost always non-zero, either sign) offset"""
+    for _ in range(60):
+        e = gen_eargs(rng, u, p, g, array=array, **kw)
+        if "offset" in e:
+            return e
+    return e
+
+
+def gen_ekey(rng, ea):
+    """an index into the epochs described by ea: integer (also negative / outside), slice, list, boolean mask"""
+    sp = spec_epochs(ea)
+    n = len(sp["start"]) if isinstance(sp, dict) else 2
+    r = rng.random()
+    if r < 0.4:
+        return {"kind": "int", "k": rng.randint(-n, n - 1) if rng.random() < 0.85 else rng.choice([n, -n - 1]), "np": rng.random() < 0.3}
+    if r < 0.65:
+        return {"kind": "slice", "lo": rng.choice([None, 0, 1, -1, -n, n]), "hi": rng.choice([None, None, 1, n, -1, n + 2])}
+    if r < 0.85:
+        return {"kind": "list", "l": [rng.randint(-n, n - 1) if rng.random() < 0.93 else n for _ in range(rng.randint(1, 3))]}
+    return {"kind": "mask", "m": [rng.random() < 0.6 for _ in range(n if rng.random() < 0.9 else n + 1)]}
 
 
 # ------------------------------------------------------------------ long objects (oracle only: too long for K)
